@@ -88,7 +88,7 @@ Section Slip32Proofs.
   Lemma slip32_parts_layout path cc key is_public : path_ok path -> length cc = 32%nat ->
     slip32_parts (slip32_layout path cc key) is_public =
       k <- (if is_public then Ok key
-            else k0 <- of_option (nth_error key 0) IndexError ;;
+            else k0 <- of_option (nth_error key 0) ValueError ;;
                  if negb (k0 =? 0) then Err ValueError else Ok (skipn 1 key)) ;;
       Ok (k, path, cc).
   Proof.
@@ -166,14 +166,50 @@ Section Slip32Proofs.
     rewrite depth_to_bytes_overflow by lia. reflexivity.
   Qed.
 
-  (* F12 (counted under C14): a private payload that ends before the key part is not rejected with a
-     ValueError: the pad byte is indexed first.  Witness: depth byte 0 followed by a chain code only. *)
-  Theorem slip32_short_payload_index_error v cc : slip32_ver_ok v -> length cc = 32%nat -> bytes_ok cc ->
-    slip32_deserialize (bech_enc (snd v) (0 :: cc)) v = Err IndexError.
+  (* F12 (repaired in /repo): a private payload that ends before the key part is rejected with ValueError.
+     Witness shape: depth byte 0 followed by a chain code only. *)
+  Theorem slip32_short_payload_value_error v cc : slip32_ver_ok v -> length cc = 32%nat -> bytes_ok cc ->
+    slip32_deserialize (bech_enc (snd v) (0 :: cc)) v = Err ValueError.
   Proof.
     intros Hv Lc Hc. unfold Slip32.slip32_deserialize. rewrite get_if_public_priv by auto. cbn [bind Ok].
     rewrite bech_dec_enc by (constructor; auto; lia). cbn [bind Ok].
     replace (0 :: cc) with (slip32_layout [] cc []) by (unfold slip32_layout; cbn [length N.of_nat map concat app]; rewrite app_nil_r; reflexivity).
     rewrite slip32_parts_layout; [reflexivity| |auto]. split; [cbn; lia|constructor].
+  Qed.
+
+  (* the path loop cannot fail on well-formed bytes: at most 4 bytes are read per element *)
+  Lemma slip32_path_total ser : bytes_ok ser -> forall count start, exists p, slip32_path ser start count = Ok p.
+  Proof.
+    intros Hb. induction count as [|c IH]; intros start; [exists []; reflexivity|].
+    cbn [slip32_path]. change bip32_index_len with 4%nat.
+    assert (Hs : bytes_ok (slice start (start + 4) ser)) by (apply bytes_ok_slice; auto).
+    assert (Ls : (length (slice start (start + 4) ser) <= 4)%nat).
+    { unfold slice. rewrite firstn_length. lia. }
+    unfold index_from_bytes. rewrite mk_index_N.
+    2:{ rewrite c_index_max. pose proof (be_to_int_lt _ Hs) as B.
+        assert (256 ^ N.of_nat (length (slice start (start + 4) ser)) <= 256 ^ 4) by (apply N.pow_le_mono_r; lia).
+        change (256 ^ 4) with 4294967296 in *. lia. }
+    cbn [bind Ok]. destruct (IH (start + 4)%nat) as [p E]. rewrite E. exists (be_to_int (slice start (start + 4) ser) :: p).
+    reflexivity.
+  Qed.
+
+  Hypothesis bech_dec_ok : forall hrp s d, bech_dec hrp s = Ok d -> bytes_ok d.
+
+  (* nothing but ValueError, or whatever the Bech32 layer raised, ever comes out of the deserialiser *)
+  Theorem slip32_errors v s e : slip32_deserialize s v = Err e ->
+    e = ValueError \/ (exists hrp, bech_dec hrp s = Err e).
+  Proof.
+    unfold Slip32.slip32_deserialize, slip32_get_if_public.
+    destruct (list_eqb (firstn (length (fst v)) s) (fst v)); [|destruct (list_eqb (firstn (length (snd v)) s) (snd v))];
+      cbn [bind Ok]; try (intros E; inversion E; auto; fail).
+    all: match goal with |- context [bech_dec ?h ?x] => destruct (bech_dec h x) as [ser|e'] eqn:D end;
+      cbn [bind Ok]; try (intros E; inversion E; subst; right; eauto; fail).
+    all: pose proof (bech_dec_ok _ _ _ D) as Hb; unfold slip32_parts;
+      destruct (nth_error ser 0) as [d|]; cbn [of_option bind Ok]; try (intros E; inversion E; auto; fail);
+      destruct (slip32_path_total ser Hb (N.to_nat d) path_idx) as [p Ep]; rewrite Ep; cbn [bind Ok].
+    - unfold mk_chain_code. destruct (_ =? _)%nat; cbn [bind Ok]; intros E; inversion E; auto.
+    - destruct (nth_error _ 0) as [k0|]; cbn [of_option bind Ok]; try (intros E; inversion E; auto; fail).
+      destruct (negb _); cbn [bind Ok]; try (intros E; inversion E; auto; fail).
+      unfold mk_chain_code. destruct (_ =? _)%nat; cbn [bind Ok]; intros E; inversion E; auto.
   Qed.
 End Slip32Proofs.
